@@ -375,6 +375,15 @@ fn run_corpus(
       if opts.len() > eff_size {
         l.fail("more-options-than-size", format!("{} options for size {eff_size}", opts.len()), detail(json!(null)));
       }
+      // (b') weakest form of completeness: a plain prefix completion with matching dictionary terms
+      //      must suggest something
+      if fz.is_none() && eff_size >= 1 && m >= 1 && opts.is_empty() {
+        l.fail(
+          "no-option-although-indexed-terms-start-with-the-analysed-prefix",
+          format!("{m} indexed terms of {field} start with {analysed:?} but no option was returned"),
+          detail(json!(null)),
+        );
+      }
       // (c) order: score desc then text asc, strictly
       for w in opts.windows(2) {
         let ok = w[0].score > w[1].score || (w[0].score == w[1].score && w[0].text < w[1].text);
@@ -527,10 +536,11 @@ fn main() {
     "corpora have no pending deletions and no repeated ids (as the property restricts); every commit creates exactly one segment (no background merging), which the check verifies via the reader's segment count".into(),
     "doc_freq equality and layout independence are judged only while the number of DISTINCT qualifying dictionary terms is below the smallest value the scan cap can take (64, and max(min(max_expansions,256),size) with fuzzy if smaller); above it only size, order, membership, prefix/edit constraints and doc_freq <= dictionary count are judged".into(),
     "'within max_edits' is judged with the optimal-string-alignment distance over characters (never larger than Levenshtein) against the user's max_edits, and 'shares its first prefix_length characters' against min(prefix_length, length of the analysed prefix) characters".into(),
+    "the only completeness demanded is the weakest one: a non-fuzzy request with size >= 1 must return at least one option when some indexed term starts with the analysed prefix (suggestions 'consistent with the term dictionary'); which terms are preferred is not judged".into(),
     "scores are only required to order the options (score desc, then text asc); the score formula is undocumented, so the exact option SET is not judged against a doc_freq ranking (reported as counters nonfuzzy_equals_top_by_doc_freq / nonfuzzy_differs_from_top_by_doc_freq only)".into(),
     "cross-layout comparison tolerates relative score differences of 1e-4 and reorderings/substitutions among options whose scores tie within that tolerance (f32 summation order)".into(),
   ];
-  let n = ctx.n(100, 2000);
+  let n = ctx.n(100, 6000);
   let quick = ctx.quick();
   // ---------------- directed minimal corpora (deterministic; same oracle)
   ctx.run_cases("directed", 1, |_rng: &mut Rng, l: &mut Local, scratch| {
